@@ -31,7 +31,7 @@ type c18Payload struct {
 	InQ   string `json:"in_quoted"`
 }
 
-var c18Names = []string{"BZhang/report.doc", "xar!/readme", "wOFF/font", "\x1f\x8b.gz", "Rar!/x", "fLaC", "a.txt", "dir/", "src/main.go", "README", "ü/ö.txt", "日本語.txt", "PK\x03\x04.bin", "%PDF-1.4.pdf", "MZ", "\x7fELF", "GIF89a", "ID3", "BM", "long/" + strings.Repeat("n", 90), strings.Repeat("p/", 60) + "deep.txt", strings.Repeat("x", 100), strings.Repeat("y", 101), "portage/gpkg-1.0.3/README", "a/gpkg-1x", "gpkg-1", "x/gpkg-2", " lead", "trail ", "-dash", "#hash", "{\"a\":1}", "<html>", "name with spaces.tar"}
+var c18Names = []string{strings.Repeat("d", 60) + "/gpkg-1/" + strings.Repeat("f", 70), "dir/gpkg-1/" + strings.Repeat("g", 95), "BZhang/report.doc", "xar!/readme", "wOFF/font", "\x1f\x8b.gz", "Rar!/x", "fLaC", "a.txt", "dir/", "src/main.go", "README", "ü/ö.txt", "日本語.txt", "PK\x03\x04.bin", "%PDF-1.4.pdf", "MZ", "\x7fELF", "GIF89a", "ID3", "BM", "long/" + strings.Repeat("n", 90), strings.Repeat("p/", 60) + "deep.txt", strings.Repeat("x", 100), strings.Repeat("y", 101), "portage/gpkg-1.0.3/README", "a/gpkg-1x", "gpkg-1", "x/gpkg-2", " lead", "trail ", "-dash", "#hash", "{\"a\":1}", "<html>", "name with spaces.tar"}
 
 func c18Header(r *rand.Rand) *tar.Header {
 	h := &tar.Header{
@@ -57,7 +57,7 @@ func c18Header(r *rand.Rand) *tar.Header {
 		}
 	case 1:
 		h.Typeflag = tar.TypeSymlink
-		h.Linkname = []string{"target", "../x", strings.Repeat("l", 100), strings.Repeat("l", 150)}[r.Intn(4)]
+		h.Linkname = []string{"target", "../x", strings.Repeat("l", 100), strings.Repeat("l", 150), "pkgs/gpkg-1", "x/gpkg-1"}[r.Intn(6)]
 	case 2:
 		h.Typeflag = tar.TypeLink
 		h.Linkname = "orig"
@@ -199,6 +199,25 @@ func c18Corrupt(c *fw.Ctx, a []byte, tag string) {
 		}
 		x[pos] = orig
 	}
+	// the same claim under read limits that cut inside the first block (sampled)
+	for _, lim := range []uint32{1, 100, 257, 263, 265, 300, 400, 500, 511, 512} {
+		for k := 0; k < 40; k++ {
+			pos := c.Rand.Intn(512)
+			if pos >= 148 && pos < 156 {
+				continue
+			}
+			orig := x[pos]
+			x[pos] = orig ^ byte(1+c.Rand.Intn(255))
+			ch := lib.ChainOf(lib.Detect(x, lim))
+			n++
+			if ch.HasLink("application/x-tar", ".tar") {
+				c.Violate("corrupted-header-still-tar", fw.InputKey(x, lim, "Detect"),
+					fmt.Sprintf("with limit %d the first header block with byte %d changed from 0x%02x to 0x%02x is reported as %s; archive %s", lim, pos, orig, x[pos], ch, tag),
+					c18Payload{Kind: "corruption", In: append([]byte(nil), a...), Limit: lim, Pos: pos, Val: int(x[pos]), InQ: fw.Quote(a[:100], 100)})
+			}
+			x[pos] = orig
+		}
+	}
 	c.Eval(n)
 	c.Count("single_byte_corruptions", n)
 	c.Disjoint(1)
@@ -211,6 +230,16 @@ func c18KnownGpkg() []byte {
 	w := tar.NewWriter(&buf)
 	w.WriteHeader(&tar.Header{Name: "pkg/gpkg-1", Mode: 0o644, Size: 5, Format: tar.FormatUSTAR, ModTime: time.Unix(0, 0)})
 	w.Write([]byte("gpkg\n"))
+	w.Close()
+	return buf.Bytes()
+}
+
+// c18KnownTar is a small deterministic USTAR archive (used as a probe by C04).
+func c18KnownTar() []byte {
+	var buf bytes.Buffer
+	w := tar.NewWriter(&buf)
+	w.WriteHeader(&tar.Header{Name: "hello.txt", Mode: 0o644, Size: 6, Format: tar.FormatUSTAR, ModTime: time.Unix(0, 0)})
+	w.Write([]byte("hello\n"))
 	w.Close()
 	return buf.Bytes()
 }
@@ -244,7 +273,7 @@ func init() {
 	fw.Register(&fw.Prop{
 		ID:    "C18",
 		Level: "exploration",
-		Rule: "archives are written by archive/tar from random headers: formats USTAR / PAX / GNU / auto, 28 member names (long, UTF-8, names that begin like higher-priority formats (PK\\x03\\x04, %PDF-, MZ, ELF, GIF89a) and like lower-priority ones (BZh, xar!, wOFF, gzip, Rar!, fLaC, ID3, BM); names containing /gpkg-1 followed by further characters), modes, uid/gid up to and beyond 2^21 (base-256 fields), sizes 0 … 2^40 (base-256 above 8 GiB), mtimes incl. > 2^33 and sub-second (PAX), all type flags with link names and device numbers, PAX records, one or two members; each is detected at limits {0, 3072, 512, len, len+1}; then for the first block EVERY position outside 148-155 x EVERY other byte value (504 x 255 = 128 520 corruptions, exhaustive per archive) must not be reported as tar. " +
+		Rule: "archives are written by archive/tar from random headers: formats USTAR / PAX / GNU / auto, 28 member names (long, UTF-8, names that begin like higher-priority formats (PK\\x03\\x04, %PDF-, MZ, ELF, GIF89a) and like lower-priority ones (BZh, xar!, wOFF, gzip, Rar!, fLaC, ID3, BM); names containing /gpkg-1 followed by further characters), modes, uid/gid up to and beyond 2^21 (base-256 fields), sizes 0 … 2^40 (base-256 above 8 GiB), mtimes incl. > 2^33 and sub-second (PAX), all type flags with link names and device numbers, PAX records, one or two members; each is detected at limits {0, 3072, 512, len, len+1}; then for the first block EVERY position outside 148-155 x EVERY other byte value (504 x 255 = 128 520 corruptions, exhaustive per archive) must not be reported as tar; a sample of corruptions is repeated under read limits that cut inside the first block (1 … 512). " +
 			"non-trivial = an archive that is reported as tar and was put through the exhaustive corruption sweep (counted once per archive, archives are distinct by construction); plus distinct (format, type flag, has high bytes) classes.",
 		Assumptions: []string{
 			"archive/tar is the conforming writer; header combinations it refuses are not archives",
